@@ -1,4 +1,5 @@
 mod common;
+mod c02;
 mod c03;
 mod c06;
 mod c07;
@@ -14,6 +15,7 @@ mod c19;
 mod c20;
 mod simdir;
 mod dump;
+mod hist;
 mod iso;
 mod qmodel;
 
@@ -25,6 +27,7 @@ type ReplayFn = fn(&Value) -> Vec<Violation>;
 
 fn registry(id: &str) -> Option<(RunFn, ReplayFn)> {
     match id {
+        "C02" => Some((c02::run, c02::replay)),
         "C03" => Some((c03::run, c03::replay)),
         "C06" => Some((c06::run, c06::replay)),
         "C07" => Some((c07::run, c07::replay)),
